@@ -31,7 +31,7 @@ theorem wire_order_universal (st : Msg.GoStruct) (rw : Msg.RW) (d : Spec.Msg.SDe
 def firstUpperB (s : String) : Bool := match s.toList with | c :: _ => Msg.isUpper c | [] => false
 
 def exportedB (st : Msg.GoStruct) : Bool :=
-  firstUpperB (st.name.drop 7).toString && st.fields.all (fun f => f.mavname != "" || firstUpperB f.goName)
+  firstUpperB (Msg.msgSuffix st.name) && st.fields.all (fun f => f.mavname != "" || firstUpperB f.goName)
 
 theorem firstUpper_of_B (s : String) (h : firstUpperB s = true) : LayoutLink.firstUpper s := by
   unfold firstUpperB at h
